@@ -246,7 +246,10 @@ def check_params(env, label, prog, rw):
     name = "lightworks/sdk/circuit/circuit.py:Circuit.parameters#xsym"
     v1 = {i: env.const(F(i + 1, 11)) for i in range(len(prog))}
     v2 = {i: env.const(F(2 * i + 3, 13)) for i in range(len(prog))}
-    uses = {i for i, c in enumerate(prog) if c[0] in ("ps", "bs", "loss", "group", "hgroup")}
+    for i, c_ in enumerate(prog):
+        if c_[0] == "loss0":
+            v1[i] = env.const(0)            # a loss Parameter that holds exactly 0 when the circuit is built (and a positive value later)
+    uses = {i for i, c in enumerate(prog) if c[0] in ("ps", "bs", "loss", "loss0", "group", "hgroup")}
     P = {i: lw.Parameter(v1[i]) for i in uses}
     c = build(env, prog, params={i: P.get(i) for i in range(len(prog))}, observe=True)
     ref1 = build(env, prog, params={i: v1[i] for i in range(len(prog))}).U_full
@@ -266,7 +269,7 @@ def check_params(env, label, prog, rw):
     env.check_true(f"{name}.frozen[{label}]", _same(env, frozen.U_full, ref1) and frozen.get_all_params() == [],
                    note="a frozen copy keeps the values of the moment it was taken and lists no parameter", model=dict(program=label))
     # an invalid value surfaces as a compilation error when the circuit is used
-    bad = [i for i in uses if prog[i][0] in ("bs", "loss")]
+    bad = [i for i in uses if prog[i][0] in ("bs", "loss", "loss0")]
     if bad and rw is None:
         P[bad[0]].set(env.const(F(3, 2)))
         try:
@@ -290,7 +293,7 @@ def unit_params(mode="exact", tier="quick", seed=0, shard=0, nshards=1):
     from collections import OrderedDict
     agg = OrderedDict()
     A = [a for a in alphabet() if a[0] != "um"]
-    progs = [(a,) for a in A] + list(itertools.product([a for a in A if a[0] in ("ps", "bs", "loss", "group", "hgroup")], [a for a in A if a[0] in ("swaps", "bs", "loss", "hgroup")]))
+    progs = [(a,) for a in A] + list(itertools.product([a for a in A if a[0] in ("ps", "bs", "loss", "loss0", "group", "hgroup")], [a for a in A if a[0] in ("swaps", "bs", "loss", "hgroup")]))
     progs = [p for k, p in enumerate(progs) if k % nshards == shard]
     n = 0
     for prog in progs:
